@@ -138,14 +138,15 @@ func indent(r *rand.Rand) string {
 }
 
 type progGen struct {
-	inCmd  bool
-	r      *rand.Rand
-	o      progOpts
-	p      *Program
-	stored []string
-	nFile  int
-	eo     entryOpts
-	defs   []string
+	inCmd, underCmd       bool
+	madeCmd, madeWordsCmd []string
+	r                     *rand.Rand
+	o                     progOpts
+	p                     *Program
+	stored                []string
+	nFile                 int
+	eo                    entryOpts
+	defs                  []string
 	// names defined inside include files only: the including file may mention them, they stay unexpanded there
 	fileDefs []string
 	// include files created so far (reused: the same file included several times, by different kinds of include)
@@ -234,9 +235,10 @@ func (g *progGen) includeFile(depth int, wordList bool) string {
 
 func (g *progGen) items(depth int, inCmd bool) []string {
 	var lines []string
-	saved := g.inCmd
+	saved, savedUnder := g.inCmd, g.underCmd
 	g.inCmd = inCmd
-	defer func() { g.inCmd = saved }()
+	g.underCmd = g.underCmd || inCmd // some enclosing block is a cmdline block
+	defer func() { g.inCmd, g.underCmd = saved, savedUnder }()
 	n := 1 + g.r.Intn(g.o.maxItems)
 	for i := 0; i < n; i++ {
 		ind := indent(g.r)
@@ -286,18 +288,24 @@ func (g *progGen) items(depth int, inCmd bool) []string {
 				kind := weighted(g.r, []int{5, 3, 3})
 				// include-except works on word lists (C06): its files carry no prefix/suffix lines
 				var f string
+				// a file is reused only in the kind of place it was made for: files made outside cmdline blocks may carry
+				// definitions and regex entries, which are no command words (outside C04's and C01's quantifier)
+				made, madeWords := &g.made, &g.madeWords
+				if g.inCmd {
+					made, madeWords = &g.madeCmd, &g.madeWordsCmd
+				}
 				switch {
-				case kind == 2 && len(g.madeWords) > 0 && chance(g.r, 0.35):
-					f = pick(g.r, g.madeWords)
+				case kind == 2 && len(*madeWords) > 0 && chance(g.r, 0.35):
+					f = pick(g.r, *madeWords)
 					g.count("include-file-reused")
-				case kind != 2 && len(g.made) > 0 && chance(g.r, 0.35):
-					f = pick(g.r, g.made)
+				case kind != 2 && len(*made) > 0 && chance(g.r, 0.35):
+					f = pick(g.r, *made)
 					g.count("include-file-reused")
 				default:
 					f = g.includeFile(1, kind == 2)
-					g.made = append(g.made, f)
+					*made = append(*made, f)
 					if kind == 2 {
-						g.madeWords = append(g.madeWords, f)
+						*madeWords = append(*madeWords, f)
 					}
 				}
 				switch kind {
@@ -305,9 +313,14 @@ func (g *progGen) items(depth int, inCmd bool) []string {
 					lines = append(lines, ind+"##!> include "+f)
 					g.count("include")
 				case 1:
-					lines = append(lines, ind+"##!> include "+f+" -- "+pick(g.r, []string{"@ ~", "~ @", "@ \"\"", "@ ~ ~ x", "oo 00 ar AR", "@ x @ y", "> ]", "e E", "=> X", "< L s S", "x X e \"\"",
-						// white space that is not the directive's white space belongs to the key or value it touches
-						"\u00a0@ ~", "@ X\v", "\v@ y\u00a0", "~ \u2003", "@ \u0085x e E\u00a0"}))
+					pairLists := []string{"@ ~", "~ @", "@ \"\"", "@ ~ ~ x", "oo 00 ar AR", "@ x @ y", "> ]", "e E", "=> X", "< L s S", "x X e \"\""}
+					if !g.underCmd {
+						// white space that is not the directive's white space belongs to the key or value it touches.
+						// (Not inside cmdline blocks: command words are ASCII in C04's and C01's quantifier — the code
+						// re-encodes every byte ≥ 0x80 of a command word, which the model reproduces and the plain reading does not.)
+						pairLists = append(pairLists, "\u00a0@ ~", "@ X\v", "\v@ y\u00a0", "~ \u2003", "@ \u0085x e E\u00a0")
+					}
+					lines = append(lines, ind+"##!> include "+f+" -- "+pick(g.r, pairLists))
 					g.count("include-suffix-replacement")
 				case 2:
 					x1 := g.includeFile(0, true)
